@@ -335,7 +335,7 @@ fn key_patterns(n: u64, letters: u64) -> Vec<Vec<u64>> {
 }
 
 /// C16 / C17: every key line over a small alphabet (all tie patterns), every variant
-pub fn gen_sort(out: &mut Out, prop: u32, tier: &str, _rng: &mut Rng) {
+pub fn gen_sort(out: &mut Out, prop: u32, tier: &str, rng: &mut Rng) {
     let (smax, letters) = if tier == "quick" { (4, 3) } else { (5, 3) };
     let variants: Vec<u64> = if prop == 16 { (0..=5).collect() } else { (6..=10).collect() };
     let mut recvs = vec![];
@@ -364,11 +364,44 @@ pub fn gen_sort(out: &mut Out, prop: u32, tier: &str, _rng: &mut Rng) {
                             data[(cy * rc.c + cx) as usize] = val;
                         }
                     }
-                    emit(out, prop, &OCase { kind: rc.kind, c: rc.c, r: rc.r, win: rc.win, data, op: TOp::Sort(var, line) });
+                    emit(out, prop, &OCase { kind: rc.kind, c: rc.c, r: rc.r, win: rc.win, data: data.clone(), op: TOp::Sort(var, line) });
+                    // the stable natural-order variants with key cells that are EQUAL values:
+                    // the lines differ only elsewhere, stability is what orders them
+                    if matches!(var, 4 | 10) && line < lines {
+                        for (pos, k) in pat.iter().enumerate() {
+                            let (cx, cy) = if is_col { (x0 + line, y0 + pos as u64) } else { (x0 + pos as u64, y0 + line) };
+                            data[(cy * rc.c + cx) as usize] = 100_000 + (*k * 1024) as u32;
+                        }
+                        emit(out, prop, &OCase { kind: rc.kind, c: rc.c, r: rc.r, win: rc.win, data, op: TOp::Sort(var, line) });
+                    }
                 }
             }
         }
     }
+    // long key lines with many ties: beyond the length (20 / 32 elements, depending on the
+    // standard library) up to which slice::sort_unstable happens to behave like a stable sort
+    let lens: &[u64] = if tier == "quick" { &[21, 33, 48] } else { &[21, 32, 33, 40, 64, 100, 257] };
+    let reps = if tier == "quick" { 2 } else { 8 };
+    for &n in lens { for other in [1u64, 2, 3] { for &var in &variants { for kind in [0u64, 2, 3] { for rep in 0..reps {
+        let is_col = var >= 6;
+        let (nc, nr) = if is_col { (other, n) } else { (n, other) };
+        let rc = if kind == 0 { Recv { kind, c: nc, r: nr, win: (0, 0, 0, 0), nc, nr } }
+                 else { Recv { kind, c: nc + 2, r: nr + 1, win: (1, 1, nc + 1, nr + 1), nc, nr } };
+        let line = rng.below(other);
+        let letters = 2 + rng.below(3);
+        let tied_values = matches!(var, 4 | 10) && rep % 2 == 0;
+        let mut data = plain(rc.c, rc.r);
+        let (x0, y0) = if kind == 0 { (0, 0) } else { (rc.win.0, rc.win.1) };
+        for pos in 0..n {
+            let k = rng.below(letters);
+            let (cx, cy) = if is_col { (x0 + line, y0 + pos) } else { (x0 + pos, y0 + line) };
+            let val = if tied_values { 100_000 + (k * 1024) as u32 }
+                      else if matches!(var, 4 | 5 | 10) { 100_000 + ((k * 7 + (pos * 3) % 5) * 1024) as u32 + pos as u32 }
+                      else { 100_000 + (k * 1024) as u32 + pos as u32 };
+            data[(cy * rc.c + cx) as usize] = val;
+        }
+        emit(out, prop, &OCase { kind: rc.kind, c: rc.c, r: rc.r, win: rc.win, data, op: TOp::Sort(var, line) });
+    } } } } }
 }
 
 /// C04: every mutating operation on every window position of a parent
